@@ -97,9 +97,14 @@ class Module:
         """
         Returns a list of all parameters in the module
         """
-        params = list(self._parameters.values())
+        candidates = list(self._parameters.values())
         for m in self.submodules():
-            params += m.parameters()
+            candidates += m.parameters()
+        # a parameter (or submodule) shared by several parents is reported once
+        params = []; seen = set()
+        for p in candidates:
+            if id(p) not in seen:
+                seen.add(id(p)); params.append(p)
         return params
     
     def submodules(self) -> list['Module']:
